@@ -140,7 +140,3 @@ def run(ctx: core.Ctx) -> core.Report:
     rep.sample({"op": ops[-1], "impl": post[-1][0]})
     return rep
 
-
-def replay(ctx, data):
-    print(data)
-    return 0
